@@ -209,7 +209,7 @@ func checkC14(c *Ctx, r *Report) {
 		}
 		key, pos := "sm2/internal."+name, p.Pos(fn.Pos())
 		e := newSched(p, tables)
-		rets := e.runFunc(fn, newSState(), []sVal{sBytes{"k", 32}})
+		rets := e.runFunc(fn, newSState(), []sVal{sBytes{name: "k", n: 32}})
 		if !e.report(r, key, pos) {
 			r.Count("schedules", 1)
 			continue
@@ -242,7 +242,7 @@ func checkC14(c *Ctx, r *Report) {
 		st := newSState()
 		pid := e.newID()
 		st.heap[pid] = &hPoint{form: pform{pfKey("", "P"): big.NewInt(1)}}
-		rets := e.runFunc(fn, st, []sVal{sBytes{"g", 32}, sPoint{pid}, sBytes{"t", 32}})
+		rets := e.runFunc(fn, st, []sVal{sBytes{name: "g", n: 32}, sPoint{pid}, sBytes{name: "t", n: 32}})
 		r.Count("schedules", 1)
 		if e.report(r, key, pos) {
 			want := bitsForm("g", 256, "G")
@@ -337,7 +337,7 @@ func c14ScalarMult(r *Report, p *Prog, tables map[string]*tabSem) {
 		pid := e.newID()
 		st.heap[pid] = &hPoint{form: pform{pfKey("", "P"): big.NewInt(1)}}
 		for i, prm := range fn.Params {
-			st.vals[prm] = []sVal{sPoint{pid}, sBytes{"scalar", -1}}[i]
+			st.vals[prm] = []sVal{sPoint{pid}, sBytes{name: "scalar", n: -1}}[i]
 		}
 		return e, st
 	}
@@ -588,7 +588,7 @@ func c14ScalarMultUnrolled(r *Report, p *Prog, tables map[string]*tabSem, fn *ss
 		st := newSState()
 		pid := e.newID()
 		st.heap[pid] = &hPoint{form: pform{pfKey("", "P"): big.NewInt(1)}}
-		rets := e.runFunc(fn, st, []sVal{sPoint{pid}, sBytes{"scalar", n}})
+		rets := e.runFunc(fn, st, []sVal{sPoint{pid}, sBytes{name: "scalar", n: n}})
 		steps += e.steps
 		if !e.report(r, fmt.Sprintf("%s (%d-byte scalar)", key, n), pos) {
 			return
